@@ -638,6 +638,16 @@ def requantize_rules(chk):
     for g, classes in gating.items():
         chk.require("C10.R7", f"{mi.rel}:{rq.lineno}", False, f"every registered module class is created by quantize() whatever `{g}` is (gated classes: {sorted(set(classes))})", "quantize", f"default-quantized target lacks the classes gated by {g}",
                     f"a state_dict saved from a model quantized with {g}, loaded with load_state_dict() into quantize(fresh_model): Unexpected key(s) ln.input_scale, ln.output_scale, ln.weight_qtype, ln.activation_qtype")
+    # (d') the converse: a default-quantized target wraps EVERY eligible module, a source quantized with a module filter left some in float - the loader of
+    #      the target pops `<name>.weight_qtype` / `<name>.activation_qtype` without a default
+    qmx = repo.cls("QModuleMixin")
+    ld = qmx.own("_load_from_state_dict")
+    pops = [c for c in ast.walk(ld) if isinstance(c, ast.Call) and isinstance(c.func, ast.Attribute) and c.func.attr == "pop" and c.args and "_qtype" in U(c.args[0])]
+    bare = [c for c in pops if len(c.args) == 1 and not c.keywords]
+    guarded_in = any(isinstance(c, ast.Compare) and isinstance(c.ops[0], (ast.In, ast.NotIn)) and "_qtype" in U(c.left) for c in ast.walk(ld))
+    if pops:
+        chk.require("C10.R7", f"{qmx.mod.rel}:{bare[0].lineno if bare else ld.lineno}", not bare or guarded_in, f"_load_from_state_dict reads the qtype entries of its module with a default (or after testing for them): {len(bare)} bare pop(s)", "QModuleMixin._load_from_state_dict",
+                    "qtype entries popped without a default", "quantize(source, modules=[subset]); quantize(target) (default: every Linear): target.load_state_dict(source.state_dict()) -> KeyError '2.weight_qtype' for each module the source left in float (requantize() handles the same state_dict)")
     # (e) tensors that are not in the state_dict survive requantize(): moving the whole model to meta and back to empty loses non-persistent buffers
     whole_meta = any(isinstance(x, ast.Call) and U(x.func) == f"{model}.to" and "meta" in U(x) for x in ast.walk(rq)) and any(isinstance(x, ast.Call) and U(x.func) == f"{model}.to_empty" for x in ast.walk(rq))
     chk.require("C10.R8", f"{mi.rel}:{rq.lineno}", not whole_meta, "requantize keeps the tensors of the model that the state_dict does not hold (it does not move the whole model to meta and back to empty)", "requantize", "non-persistent buffers lost",
